@@ -386,7 +386,8 @@ def seq_cases(draw, method):
     if method == 'pit':
         fam = draw(st.sampled_from(['1d', '1d', '2d']))
         spec = draw(ng.netspecs(ng.Profile(family=fam, pads=('causal', 'same'), exclude=True,
-                                           reuse=True, max_blocks=4, min_blocks=2, dropout=False)))
+                                           reuse=True, max_blocks=4, min_blocks=2, dropout=False,
+                                           fixtures=True)))
         case = {'method': 'pit', 'spec': spec}
     elif method == 'mps':
         prof = mu.profile()
